@@ -30,7 +30,7 @@ UNITS_H = ['<a', '</a>', '<a>', '<br>', '/>', '>', '<', ' b="', " c='", ' d={', 
            '<script type=', ' *', ' #r', '{']            # the attribute the scanner itself reads (special elements are typed)
 
 # math
-TOKENS_E = ['1', '2', '0', '.5', '1.5', '+', '-', '*', '/', '\\', '(', ')', ' ', '()', '(1)', '(2+1)']
+TOKENS_E = ['1', '2', '0', '.5', '1.5', '+', '-', '*', '/', '\\', '(', ')', ' ', '()', '(1)', '(2+1)', '(-1)', '(-2+1)']      # groups that open with a sign
 # '\u00b2' (superscript two): str.isdigit() but not a decimal digit - not part of a number
 SIGMA_E = ['1', '.', '+', '-', '*', '/', '\\', '(', ')', ' ', 'a', '\u00b2']
 SIGMA_EX = ['1', '.', '+', '-', '(', ')', ' ', 'a', '\u00b2']
